@@ -34,7 +34,8 @@ const (
 	// ExclCollisionPropUndefined: a prop whose name is visible at the include site, bound to an
 	// undefined name (vuego binds nothing, Vue binds undefined).
 	ExclCollisionPropUndefined = "visible-prop-name-bound-to-undefined"
-	// ExclDirectiveOnSlot: v-if / v-for written on the <slot> element itself.
+	// ExclDirectiveOnSlot: v-else-if / v-else / v-show written on the <slot> element itself
+	// (v-if and v-for on it are generated).
 	ExclDirectiveOnSlot = "directive-on-slot"
 	// ExclBothDefaultForms: plain children next to a <template v-slot> for the unnamed slot.
 	ExclBothDefaultForms = "plain-children-and-v-slot-template"
@@ -645,6 +646,12 @@ func (g *gstate) slotItem(sc gscope) ([]Node, []string) {
 		// over budget: place the bare slot
 	case len(sc.loopVars) == 0 && len(lists) > 0 && sc.depth < MaxDepth-1 && g.pct(40):
 		f, sc2 := g.newFor(sc)
+		if g.pct(30) {
+			// v-for on the <slot> element itself
+			n := mk(sc2)
+			n.For = f
+			return []Node{n}, []string{f.Var}
+		}
 		g.left--
 		wrap := Node{Kind: KEl, Tag: g.pick(tags), M: g.marker("e"), For: f}
 		wrap.Kids = []Node{mk(sc2.deeper())}
@@ -654,6 +661,20 @@ func (g *gstate) slotItem(sc gscope) ([]Node, []string) {
 		wrap := Node{Kind: KEl, Tag: g.pick(tags), M: g.marker("e"), If: g.scalar(sc)}
 		wrap.Kids = []Node{mk(sc.deeper())}
 		return []Node{wrap}, nil
+	case g.pct(30):
+		// v-if on the <slot> element itself, optionally followed by a v-else probe
+		n := mk(sc)
+		n.If = g.scalar(sc)
+		out := []Node{n}
+		if g.left > 0 && g.pct(50) {
+			g.left--
+			alt := Node{Kind: KEl, Tag: g.pick(tags), M: g.marker("e"), Else: true}
+			asc := sc.deeper()
+			asc.pending = nil
+			alt.Kids = []Node{g.probe(asc, nil)}
+			out = append(out, alt)
+		}
+		return out, nil
 	}
 	return []Node{mk(sc)}, nil
 }
